@@ -251,7 +251,10 @@ WalkFrom(F, o, acc, fuel) ==
     ELSE WalkFrom(F, o + F.slots[o].size, acc \cup {o}, fuel - 1)
 Tiles(F, hdr) == LET w == WalkFrom(F, hdr, {}, Cardinality(DOMAIN F.slots) + 1) IN
                  w[2] /\ w[1] = DOMAIN F.slots
-SizesOK(F) == \A o \in DOMAIN F.slots : LET z == F.slots[o].size IN z % 8 = 0 /\ z >= 16 /\ LegalSize(z)
+\* sizes are stored divided by 8 and a free slot needs 10 bytes: what the format demands of a slot size
+SizesOK(F) == \A o \in DOMAIN F.slots : LET z == F.slots[o].size IN z % 8 = 0 /\ z >= 16
+\* what the design produces in addition: one of the 16 class values or a multiple of 128 above 1024
+ClassSizesOK(F) == \A o \in DOMAIN F.slots : LegalSize(F.slots[o].size)
 \* fl: the 16 derived lists of file F, fs: their union
 FreeListsOKD(F, fl, fs) ==
     /\ \A i \in 1..NClasses : fl[i][2]
@@ -266,7 +269,7 @@ PartitionOKD(F, usedset, fs) ==
     /\ usedset \cap fs = {}
     /\ usedset \cup fs = DOMAIN F.slots
 SpaceOKD(S, D) == /\ Tiles(S.kf, KeyHdr) /\ Tiles(S.vf, ValHdr)
-                  /\ SizesOK(S.kf) /\ SizesOK(S.vf)
+                  /\ SizesOK(S.kf) /\ SizesOK(S.vf) /\ ClassSizesOK(S.kf) /\ ClassSizesOK(S.vf)
                   /\ FreeOKD(S, D)
                   /\ PartitionOKD(S.kf, D.reach, D.kfs) /\ PartitionOKD(S.vf, D.rvals, D.vfs)
 SpaceOK(S) == SpaceOKD(S, Derive(S))
